@@ -133,6 +133,79 @@ class Repo:
         for _ in range(2):
             if not self._inline_oneliners():
                 break
+        self._hoist_new_helper_calls()
+
+    # ------------------------------------------------------------------ calls of new helpers become statements of their own
+    def _hoist_new_helper_calls(self) -> int:
+        """Part of the normal form: `x = helper(a).f` (helper: a module-level function the reference tree does not have) becomes
+        `__h = helper(a); x = __h.f`, when the call is evaluated unconditionally by the statement.  The flow walker then walks the
+        helper as part of its caller (it only does so for calls that are a statement's whole value)."""
+        import json
+
+        try:
+            known = frozenset(json.loads(Path(__file__).with_name("known_funcs.json").read_text()))
+        except Exception:  # noqa: BLE001
+            return 0
+        repo = self
+        count = 0
+
+        def new_helper(m: Module, call: ast.Call) -> bool:
+            if not isinstance(call.func, ast.Name):
+                return False
+            h = m.funcs.get(call.func.id)
+            if h is None and call.func.id in m.imports:
+                obj = repo.lookup_dotted(m.imports[call.func.id])
+                h = obj if isinstance(obj, Func) else None
+            return h is not None and h.cls is None and h.key not in known
+
+        def unconditional_calls(m: Module, e: ast.AST, out: list[ast.Call], top: bool) -> None:
+            if isinstance(e, (ast.Lambda, ast.ListComp, ast.SetComp, ast.DictComp, ast.GeneratorExp, ast.IfExp)):
+                if isinstance(e, ast.IfExp):
+                    unconditional_calls(m, e.test, out, False)
+                return
+            if isinstance(e, ast.BoolOp):
+                unconditional_calls(m, e.values[0], out, False)
+                return
+            for c in ast.iter_child_nodes(e):
+                unconditional_calls(m, c, out, False)
+            if isinstance(e, ast.Call) and not top and new_helper(m, e):
+                out.append(e)
+
+        def process(m: Module, stmts: list[ast.stmt]) -> list[ast.stmt]:
+            nonlocal count
+            res: list[ast.stmt] = []
+            for st in stmts:
+                for fld in ("body", "orelse", "finalbody"):
+                    sub = getattr(st, fld, None)
+                    if isinstance(sub, list) and sub and isinstance(sub[0], ast.stmt):
+                        setattr(st, fld, process(m, sub))
+                if isinstance(st, ast.Try):
+                    for h in st.handlers:
+                        h.body = process(m, h.body)
+                if isinstance(st, (ast.Assign, ast.AnnAssign, ast.AugAssign, ast.Expr, ast.Return)) and getattr(st, "value", None) is not None:
+                    found: list[ast.Call] = []
+                    unconditional_calls(m, st.value, found, True)
+                    for k, call in enumerate(found):
+                        tmp = f"__h{getattr(st, 'lineno', 0)}_{k}__"
+                        res.append(ast.copy_location(ast.Assign([ast.Name(tmp, ast.Store())], call), st))
+
+                        class Rep(ast.NodeTransformer):
+                            def visit_Call(self, n: ast.Call) -> ast.AST:
+                                if n is call:
+                                    return ast.copy_location(ast.Name(tmp, ast.Load()), n)
+                                return self.generic_visit(n)
+
+                        st.value = Rep().visit(st.value)
+                        count += 1
+                res.append(st)
+            return res
+
+        for m in self.modules.values():
+            for node in ast.walk(m.tree):
+                if isinstance(node, (ast.FunctionDef, ast.AsyncFunctionDef)):
+                    node.body = process(m, node.body)
+            ast.fix_missing_locations(m.tree)
+        return count
 
     # ------------------------------------------------------------------ expression helpers are looked through
     def _inline_oneliners(self) -> int:
